@@ -611,10 +611,7 @@ func (f *Fam) applyRevoke(op Op) string {
 		before = w.StateKey()
 	}
 	o := w.Revoke(t.Val, op.Hint, f.authBy(g.Client, op.By))
-	goErr := ""
-	if i := strings.Index(o.GoErr, ":"); i > 0 {
-		goErr = o.GoErr[:i]
-	}
+	goErr := o.RevokeClass() // the endpoint's answer, not the library-level error
 	cls := "revoke:" + op.By + ":" + t.Status + ":" + goErr
 	live, nearExp := f.expLive(t)
 	unchanged := func(tag string) {
@@ -805,6 +802,15 @@ func famReplay(s FamSpec, hist []Op, adopts [][]string, res *WRes, checkLast boo
 	return f
 }
 
+var famKnownCache map[string]string
+
+func famKnown() map[string]string {
+	if famKnownCache == nil {
+		famKnownCache = loadKnown()
+	}
+	return famKnownCache
+}
+
 func famExpand(arg json.RawMessage) (any, error) {
 	var j famJob
 	if err := json.Unmarshal(arg, &j); err != nil {
@@ -818,7 +824,14 @@ func famExpand(arg json.RawMessage) (any, error) {
 		nv := len(out.Viol)
 		stepRes := &WRes{}
 		f := famReplay(j.Spec, h, j.Adopts, stepRes, true)
-		bad := len(stepRes.Viol) > 0
+		// a step is terminal when it violated the property — unless every violation it produced is a listed known
+		// finding (those are reported once and must not cut the search short)
+		bad := false
+		for _, v := range stepRes.Viol {
+			if _, listed := famKnown()[v.Property+"\x00"+v.Fingerprint]; !listed {
+				bad = true
+			}
+		}
 		mergeWRes(&out.WRes, stepRes)
 		_ = nv
 		out.Trans++
